@@ -2,5 +2,5 @@ From Coq Require Import extraction.Extraction extraction.ExtrOcamlBasic.
 From TU Require Import Base C20_Model.
 Definition run := run_C20.
 Definition check := check_C20.
-Definition agree (inp m i : val) : bool := agree_C20 inp m i.
+Definition agree (inp m i : val) : bool := agree_C20 inp m i && uax29_agree inp.
 Extraction "model.ml" run check agree.
